@@ -10,6 +10,10 @@ R19.2 explicit panic inventory: the explicit panic constructs (unwrap/expect on 
       LRParser::{parse,parse_into}, TokenStream::new* are exactly the reviewed table (each with the reason it cannot
       fire for generated tables).  debug_assert*! sites are listed, not judged; MIR bounds/overflow assertions are
       counted only (value ranges are out of reach of this family).
+R19.4 unsigned-subtraction inventory: every overflow-checked `a - b` on the parse paths is either discharged by a
+      dominating guard that implies a >= b (pv/rules/subguard.py) or belongs to the reviewed table (function, count,
+      reason).  A new unguarded subtraction is a violation (index/length underflow panics in debug builds and wraps
+      in release builds).
 R19.3 main-loop progress (LL): every iteration of parse_into's loop that does not leave the loop pops the parser stack,
       consumes a token or enters a handler (no idle iteration).
 """
@@ -33,6 +37,21 @@ META = {
 
 LRP = "parol_runtime::lr_parser::parser_types::LRParser::"
 # reviewed explicit panic sites (DESIGN Appendix A): key -> (count, reason)
+# reviewed unsigned subtractions that no syntactic guard discharges: key -> (count, reason)
+SUB_TABLE = {
+    "parol_runtime|parser::parser_types|LLKParser::parse_into":
+        (1, "production_depth -= 1 at an end-of-production marker; push_production incremented it for the same "
+            "(non-push) production when the marker was pushed"),
+    "parol_runtime|parser::parser_types|LLKParser::process_item_stack":
+        (1, "parse_tree_stack.len() - production.len(): every symbol of the production pushed one node (stack discipline "
+            "of the LL driver; decided for the tree shape by C01, not here)"),
+    "parol_runtime|parser::recovery|Recovery::levenshtein_distance":
+        (17, "i and j range over 1..=len in the fill loops; in the backtrack ops[i][0] is Delete and ops[0][j] is Insert, "
+             "so i (j) is only decremented while > 0 (the matrix invariants are C31's subject)"),
+    "parol_runtime|parser_common::parse_tree_stack|ParseTreeStack::pop_n":
+        (3, "loop condition len < stack.len() makes stack.len() - 1 - len >= 0; len is clamped to stack.len() before "
+            "the final stack.len() - len"),
+}
 PANIC_TABLE = {
     "parol_runtime|parser::parser_types|LLKParser::recover_from_prediction_error|Option::unwrap":
         (1, "iter().next().unwrap() inside unwrap_or_else, guarded by !possible_terminal_strings.is_empty()"),
@@ -163,6 +182,42 @@ def check(ctx):
     ctx.counters["mir_asserts"] = sum(asserts.values())
     ctx.require_floor("R19.2", "reachable_functions", len(seen), 120)
     ctx.require_floor("R19.2", "reviewed_sites_seen", sum(len(v) for v in found.values()), 5)
+
+    # ---------------------------------------------------------------- R19.4
+    from . import subguard
+    nsub = nauto = 0
+    unguarded = {}
+    for k, (b, pk, info) in sorted(seen.items()):
+        sites = subguard.sub_sites(b)
+        if not sites:
+            continue
+        dom = cfg.Dom(b)
+        for bi, line, a, bb, ty in sites:
+            if ty not in subguard.UNSIGNED:
+                continue
+            nsub += 1
+            g, why = subguard.guarded(b, bi, a, bb, dom)
+            if g:
+                nauto += 1
+                ctx.ok("R19.4", "%s|sub@guarded" % fn_key(b, facts), "a - b is dominated by a guard implying a >= b (%s)" % why,
+                       where(b, line))
+            else:
+                unguarded.setdefault(fn_key(b, facts), []).append((b, line))
+    for key, sites in sorted(unguarded.items()):
+        allowed = SUB_TABLE.get(key)
+        b, line = sites[0]
+        if allowed and len(sites) <= allowed[0]:
+            ctx.ok("R19.4", key + "|sub", "%d reviewed subtraction(s) without a syntactic guard: %s" % (len(sites), allowed[1]),
+                   where(b, line))
+        else:
+            ctx.bad("R19.4", key + "|sub", "%d unsigned subtraction(s) (lines %s) without a dominating guard a >= b%s; an underflow "
+                    "panics in debug builds and wraps to a huge length/index in release builds; call chain: %s"
+                    % (len(sites), [l for _b, l in sites],
+                       " (%d were reviewed)" % allowed[0] if allowed else " and not in the reviewed table",
+                       " -> ".join(short(x) for x in cg.chain(seen, b))), where(b, sites[-1][1]))
+    ctx.counters["unsigned_subtractions"] = nsub
+    ctx.counters["subtractions_discharged_by_guard"] = nauto
+    ctx.require_floor("R19.4", "unsigned_subtractions", nsub, 20)
 
     # ---------------------------------------------------------------- R19.3
     pi = facts.body(ll.PARSE_INTO)
